@@ -227,7 +227,7 @@ def split_outputs(text):
 ASAN_ENV = dict(os.environ, ASAN_OPTIONS="detect_leaks=0:abort_on_error=0:exitcode=77", UBSAN_OPTIONS="print_stacktrace=0")
 
 
-def run_impl(binary, cases, timeout=600):
+def run_impl(binary, cases, timeout=int(os.environ.get("VERIF_IMPL_TIMEOUT", "120"))):
     """feed the cases to the harness. A crash (sanitizer, assert, signal) inside a case is recorded as
     the output FAULT for the operation being executed; the remaining operations of that case get
     the output SKIPPED and the following cases are run in a fresh process."""
